@@ -579,10 +579,49 @@ fn transform(c: &mut Choices<'_>, case: &WorldCase, rel: &str) -> Option<Transfo
             if !pt.is_list() && pt.base == "String" {
                 ops.extend([Op::HasPrefix, Op::HasSuffix, Op::HasSubstring, Op::NotHasPrefix]);
             }
+            if !pt.is_list() && pt.base == "String" {
+                ops.extend([Op::Regex, Op::NotRegex]);
+            }
             let op = ops[c.below(ops.len())];
             let mut args = case.args.clone();
+            // a tag of the same component that is already defined at this vertex can serve as the operand
+            let tag_operand: Option<String> = if !op.is_unary() && c.chance(110) {
+                let qcfg = crate::query_ast::QueryGenConfig::default();
+                let cands: Vec<String> = case
+                    .ann
+                    .tags
+                    .iter()
+                    .filter(|(_, def)| match def {
+                        crate::query_ast::TagDef::Prop { vid, .. } => {
+                            *vid <= node.vid && {
+                                let mut in_root = false;
+                                case.ann.root.walk(&mut |n| {
+                                    // (for the partition relation the tagged vertex must not be inside an @optional
+                                    // scope: a tag from a missing optional makes a filter and its negation both pass)
+                                    if n.vid == *vid && n.path.len() == 1 && (!partition || !n.in_optional) {
+                                        in_root = true;
+                                    }
+                                });
+                                in_root
+                            }
+                        }
+                        _ => false,
+                    })
+                    .filter(|(_, def)| crate::query_ast::tag_compatible(op, &pt, &def.ty(), &qcfg))
+                    .map(|(n, _)| n.clone())
+                    .collect();
+                if cands.is_empty() { None } else { Some(cands[c.below(cands.len())].clone()) }
+            } else {
+                None
+            };
             let arg = if op.is_unary() {
                 None
+            } else if let Some(t) = tag_operand {
+                Some(Arg::Tag(t))
+            } else if matches!(op, Op::Regex | Op::NotRegex) {
+                let name = fresh_var(case, "m");
+                args.insert(name.clone(), Value::str(["a", "^a", "b$", "a.c", "."][c.below(5)]));
+                Some(Arg::Var(name))
             } else {
                 let vt = infer_var_type(op, &pt)?;
                 let name = fresh_var(case, "m");
